@@ -18,6 +18,10 @@ pub struct C03;
 pub static P: C03 = C03;
 
 fn around(rng: &mut Rng, x: usize) -> usize {
+    // one in eight: a limit at / beyond the i32 and u32 boundaries (actual lengths stay small)
+    if rng.chance(1, 8) {
+        return *rng.pick(&HUGE_LIMITS);
+    }
     match rng.weighted(&[3, 4, 3, 1, 2, 1]) {
         0 => x.saturating_sub(1),
         1 => x,
@@ -84,7 +88,7 @@ impl Prop for C03 {
                     max_str: around(rng, e.max_str),
                     max_bytes: around(rng, e.max_bytes),
                     max_arr: around(rng, e.max_arr),
-                    max_depth: if rng.chance(1, 10) { rng.below(4) } else { 64 },
+                    max_depth: if rng.chance(1, 10) { rng.below(4) } else if rng.chance(1, 6) { *rng.pick(&HUGE_LIMITS) as u64 } else { 64 },
                     max_msg: 0,
                     named: 0,
                 };
@@ -100,10 +104,12 @@ impl Prop for C03 {
                         break;
                     }
                     let i = *rng.pick(&pos);
+                    // (no huge limits here: a rewritten length of i32::MAX would then be within the configured
+                    // maximum and the decoder would rightly try to allocate it)
                     let lim = Lim {
-                        max_str: around(rng, e.max_str),
-                        max_bytes: around(rng, e.max_bytes),
-                        max_arr: around(rng, e.max_arr),
+                        max_str: around(rng, e.max_str).min(70_000),
+                        max_bytes: around(rng, e.max_bytes).min(70_000),
+                        max_arr: around(rng, e.max_arr).min(70_000),
                         max_depth: 64,
                         max_msg: 0, named: 0 };
                     let limit = *rng.pick(&[lim.max_str, lim.max_bytes, lim.max_arr]) as i64;
@@ -191,7 +197,13 @@ impl Prop for C03 {
                     2 | 3 => size as usize,
                     4 | 5 => (size as usize).saturating_sub(1),
                     6 => 1,
-                    _ => 327675,
+                    _ => {
+                        if rng.chance(1, 2) {
+                            *rng.pick(&HUGE_LIMITS)
+                        } else {
+                            327675
+                        }
+                    }
                 };
                 // an accepted chunk is printed in full: keep those small
                 let (size, max_msg) = if (max_msg == 0 || max_msg >= size as usize) && size > 2000 {
